@@ -18,7 +18,9 @@ On(s, e) ==
                     \* every operation of the catalogue succeeds on a healthy agent; a baseline that fails was disturbed by clients used earlier on this loop
                     <<"fails_even_alone_after_other_clients_ran:" \o solo.result, solo.kind = "result">>,
                     <<"exception_under_interleaving:" \o e.result, e.kind = solo.kind \/ e.kind # "exc">>,
-                    <<"result_differs_from_solo", e.kind = solo.kind /\ e.result = solo.result>> >>]
+                    <<"result_differs_from_solo", e.kind = solo.kind /\ e.result = solo.result>>,
+                    \* ... including what the transport was asked to do for it (timeout, retries of every request of the operation)
+                    <<"transport_settings_differ_from_solo", ~Has(e, "transport") \/ ~Has(solo, "transport") \/ e.transport = solo.transport>> >>]
     [] OTHER -> [st |-> s, cl |-> << <<"MACHINERY_unknown_event", FALSE>> >>]
 Init == tid \in 1..Len(Traces) /\ l = 1 /\ st = St0 /\ verdict = <<"ok", 0>>
 Step == /\ l <= Len(Ev)
